@@ -113,6 +113,7 @@ SKEL = {
     "extends_super": "{% extends 'base' %}{% block b %}{{ block.super }}{{ w }}{% endblock %}",
     "echo_liquid": "{% liquid echo v\n for i in xs\n echo w\n endfor %}",
     "literal": "αβγ{{ v }}δ",
+    "out_then_capture": "{{ v }}{{ w }}{% capture c %}{{ w }}{{ v }}{% endcapture %}x{% for i in xs %}{{ v }}{% capture d %}{{ w }}{% endcapture %}{% endfor %}",
 }
 T = {k: ENV.from_string(v) for k, v in SKEL.items()}
 
@@ -337,12 +338,12 @@ def async_out_sweep(ki, L):
 
 def c07_async_out(ki: int, L: int) -> bool:
     """
-    pre: 0 <= ki <= 13 and 0 <= L <= 60
+    pre: 0 <= ki <= 14 and 0 <= L <= 60
     post: _
     """
     if excluded("c07_async_out", locals()):
         return True
-    ki, L = cint(ki, 0, 13), cint(L, 0, 60)
+    ki, L = cint(ki, 0, 14), cint(L, 0, 60)
     return finish(untraced(lambda: not async_out_sweep(ki, L)))
 
 
@@ -399,6 +400,6 @@ def selftest():
     ENV.output_stream_limit = None
     if T["capture_out"].render(v="a", w="é", xs=[]) != "aéaé":
         fails.append("capture_out baseline")
-    if len(KINDS) != 14 or len(NKINDS) != 9:
+    if len(KINDS) != 15 or len(NKINDS) != 9:
         fails.append("skeleton counts changed: update the bounds of c07_async_*")
     return fails
